@@ -1,6 +1,5 @@
 """C31 — assembled SPV proofs prove the transaction."""
 META = {
-    "disabled": True,
     "level": "model_checking",
     "text": "AssembleSpvProof is specified query by query (confirmations, transaction, tip, one GetBlockHeader per header, Merkle proof, "
             "coinbase hash, coinbase transaction, coinbase Merkle proof) interleaved with blocks mined at any moment and failing queries, "
